@@ -293,15 +293,23 @@ def solve1d(ctx, rng, idx):
 
 @group(quick=60, thorough=2000)
 def solve2d(ctx, rng, idx):
-    iname = ["explicit", "rk2", "rk3ssp", "rk4", "lsrk25bb", "rk2_heun"][idx % 6]
-    m, model, disc, f, desc = scenario2d(rng, allper=True, nmax=5)
+    iname = ["explicit", "rk2", "rk3ssp", "rk4", "lsrk25bb", "rk2_heun", "implicit", "cranknicolson", "gear"][idx % 9]
+    m, model, disc, f, desc = scenario2d(rng, allper=True, nmax=5 if iname in gen.EXPLICIT else 3)
     cfl = float(rng.uniform(0.05, 0.4))
     nstep = int(rng.integers(1, 6))
     ctx.describe(integrator=iname, cfl=cfl, nstep=nstep, **desc)
     solver = gen.integ(iname)(m, disc)
     I0 = _integral(m, f, 3)
     A0 = [np.sum(m.vol() * np.abs(q)) for q in f.data]
-    res = solver.solve(f, cfl, stop={"maxit": nstep})
+    try:
+        res = solver.solve(f, cfl, stop={"maxit": nstep})
+    except (ValueError, IndexError) as e:
+        if iname in gen.IMPLICIT:
+            # the quantifier of C01 includes euler2d x every integrator: the implicit family cannot integrate vector-valued data
+            ctx.ev("solve2d")
+            ctx.fail("solve2d/implicit-integrators-reject-vector-valued-fields", "%s: %s" % (type(e).__name__, e))
+            return
+        raise
     fend = res[-1]
     if not all(np.all(np.isfinite(q)) for q in fend.data):
         ctx.skip("solve2d:nonfinite-end")
